@@ -13,8 +13,9 @@
 (* the lock of a LIVE holder); mutual exclusion and its consequences are checked modulo that flag.  *)
 EXTENDS JournalLog, TraceBase
 
-VARIABLES file, lockOwner, holders, alive, acked, pend, before, rfrom, ackedAtR, flags
-vars == <<tix, l, file, lockOwner, holders, alive, acked, pend, before, rfrom, ackedAtR, flags>>
+VARIABLES file, lockOwner, holders, alive, acked, pend, before, rfrom, ackedAtR, flags,
+          seen      \* worker -> generation of the lock file it saw at its last stat of the lock (0: none / ENOENT)
+vars == <<tix, l, file, lockOwner, holders, alive, acked, pend, before, rfrom, ackedAtR, flags, seen>>
 
 Workers == Trace.workers            \* set of worker ids as a sequence
 WSet    == {Workers[i] : i \in 1..Len(Workers)}
@@ -22,12 +23,13 @@ NoOwner == 0
 W       == Ev.w
 Is(e)   == Consume /\ Ev.e = e
 Range(s) == {s[i] : i \in 1..Len(s)}
-Keep(vs) == UNCHANGED vs
+Keep(vs) == UNCHANGED vs /\ UNCHANGED seen
 
 Init == /\ TraceInitBase
         /\ file = <<>> /\ lockOwner = NoOwner /\ holders = {} /\ alive = WSet /\ acked = <<>>
         /\ pend = [w \in WSet |-> <<>>] /\ before = [w \in WSet |-> {}]
         /\ rfrom = [w \in WSet |-> 0] /\ ackedAtR = [w \in WSet |-> {}] /\ flags = {}
+        /\ seen = [w \in WSet |-> 0]
 
 AStart == /\ Is("astart")
           /\ pend' = [pend EXCEPT ![W] = Ev.recs] /\ before' = [before EXCEPT ![W] = Range(acked)]
@@ -43,8 +45,16 @@ LockTryBusy ==
   /\ Is("lock_try") /\ Ev.ok = 0 /\ lockOwner # NoOwner
   /\ Keep(<<file, lockOwner, holders, alive, acked, pend, before, rfrom, ackedAtR, flags>>)
 
+StatLockEv ==        \* a waiter looks at the lock file (generation = identity of the file it saw)
+  /\ Is("stat_lock") /\ seen' = [seen EXCEPT ![W] = Ev.gen]
+  /\ UNCHANGED <<file, lockOwner, holders, alive, acked, pend, before, rfrom, ackedAtR, flags>>
+
 LockRenameOk ==      \* release by the holder, or a grace-period takeover by a waiter
   /\ Is("lock_rename") /\ Ev.ok = 1 /\ lockOwner # NoOwner
+  \* The recorded finding K4 is a check-then-act race: the waiter removes a lock file OTHER than the one it looked at.
+  \* Removing the lock of a live holder that the waiter saw at its very last look is explained by nothing (the grace
+  \* period is longer than any live critical section).
+  /\ (lockOwner # W /\ lockOwner \in alive /\ lockOwner \in holders) => seen[W] # Ev.gen
   /\ flags' = IF lockOwner # W /\ lockOwner \in alive /\ lockOwner \in holders THEN flags \cup {"K4"} ELSE flags
   /\ lockOwner' = NoOwner /\ holders' = holders \ {W}
   /\ Keep(<<file, alive, acked, pend, before, rfrom, ackedAtR>>)
@@ -91,10 +101,10 @@ Crash == /\ Is("crash")
          /\ Keep(<<file, lockOwner, holders, acked, pend, before, rfrom, ackedAtR, flags>>)
 
 Other == /\ Consume
-         /\ Ev.e \in {"open_ab", "open_rb", "stat_size", "stat_lock", "seek", "readline", "fsync", "unlink", "sleep", "tick"}
+         /\ Ev.e \in {"open_ab", "open_rb", "stat_size", "seek", "readline", "fsync", "unlink", "sleep", "tick"}
          /\ Keep(<<file, lockOwner, holders, alive, acked, pend, before, rfrom, ackedAtR, flags>>)
 
-Next == AStart \/ LockTryOk \/ LockTryBusy \/ LockRenameOk \/ LockRenameFail \/ Write \/ Truncate \/ AEnd
+Next == AStart \/ LockTryOk \/ LockTryBusy \/ StatLockEv \/ LockRenameOk \/ LockRenameFail \/ Write \/ Truncate \/ AEnd
         \/ RStart \/ REnd \/ Crash \/ Other
 Spec == Init /\ [][Next]_vars
 
